@@ -295,6 +295,11 @@ func (e *Engine) markDone() {
 		t.done = true
 	}
 	e.mu.Unlock()
+	// a task that ends without parking again must still wake an idle scheduler
+	select {
+	case e.wakeCh <- struct{}{}:
+	default:
+	}
 }
 
 func (e *Engine) recordPanic(where string, r interface{}, stack []byte) {
@@ -524,7 +529,7 @@ func (e *Engine) Run(driver func()) {
 		if len(its) == 0 {
 			if !e.idle() {
 				idleSpins++
-				if idleSpins > 3 {
+				if idleSpins > 0 {
 					e.Stuck = "no runnable task, no timer and no network event before the horizon: " + e.describeParked()
 					break
 				}
@@ -581,11 +586,12 @@ func (e *Engine) Run(driver func()) {
 // before the idle horizon.
 func (e *Engine) idle() bool {
 	next := e.nextWake()
-	d := time.Hour
+	// With nothing of our own to wait for, sleep "forever": any library timer
+	// that fires runs its goroutine up to the next park point, which pokes
+	// wakeCh. Only if the whole bubble has nothing left does this timer fire.
+	d := 100 * 365 * 24 * time.Hour
 	if !next.IsZero() {
-		if dd := time.Until(next); dd < d {
-			d = dd
-		}
+		d = time.Until(next)
 	}
 	if d <= 0 {
 		return true
@@ -596,7 +602,7 @@ func (e *Engine) idle() bool {
 	case <-e.wakeCh:
 		return true
 	case <-tm.C:
-		return !next.IsZero() && !time.Now().Before(next)
+		return !next.IsZero()
 	}
 }
 
